@@ -242,6 +242,20 @@ def window_rule(ctx, syn):
             key = "%s|offset#%d" % (f.qual, n)
             r.hit(key, sample={"iterator": f.qual, "new_end": end})
             ctx.functions_analysed.add(f.qual)
+            # ... and the begin moves strictly forward after a hit: `newend` alone does not when the fragment is empty
+            # (str::find("") answers 0, so the same empty match is yielded for ever)
+            begin = None
+            if rhs.get("k") == "structlit":
+                for fl in rhs["fields"]:
+                    if fl["name"] == "begin":
+                        begin = strip(fl["e"])
+            if begin is not None and "fragment" in unparse(f.body):
+                inner = begin
+                while inner.get("k") == "call" and len(inner["args"]) == 1:
+                    inner = strip(inner["args"][0])
+                src_b = unparse(inner)
+                if not re.search(r"is_empty\(\)|\+1\b|max\(", src_b) and "fragment.is_empty()" not in unparse(f.body).replace("self.", ""):
+                    ctx.report(r, "%s|begin" % f.qual, "%s continues its search from `%s` after a hit, which is where the hit began when the fragment is empty: find_text(\"\") yields the same empty match for ever instead of one match per position (the iterator never ends)" % (f.qual, src_b), f.file, a.get("l"))
             if end not in ("self.offset.end", "self.offset.end.clone()"):
                 ctx.report(r, "%s|end" % f.qual, "%s re-assigns its search window with end `%s` instead of keeping `self.offset.end`: after the first hit the search continues to the end of the resource, beyond the selection it was asked to search" % (f.qual, end), f.file, a.get("l"))
     ctx.floor(r, n, 2, "offset re-assignments in the search iterators")
